@@ -430,19 +430,46 @@ class Body:
                 ts = set(sw.targets(label))
                 allowed[sw.bb] = allowed[sw.bb] & ts if sw.bb in allowed else ts
         cut_blocks = set(cut_blocks)
-        seen = set(starts)
-        dq = deque(starts)
-        while dq:
-            b = dq.popleft()
-            if b in cut_blocks:
-                continue
-            for t in self.succ[b]:
-                if b in allowed and t not in allowed[b]:
+
+        def run():
+            seen = set(starts)
+            dq = deque(starts)
+            while dq:
+                b = dq.popleft()
+                if b in cut_blocks:
                     continue
-                if t in seen or t in cut_blocks:
+                for t in self.succ[b]:
+                    if b in allowed and t not in allowed[b]:
+                        continue
+                    if t in seen or t in cut_blocks:
+                        continue
+                    seen.add(t)
+                    dq.append(t)
+            return seen
+        seen = run()
+        # a boolean local that only ever receives constants (`let unchanged = matches!(state, Borrowed(_))`)
+        # and is tested later: under the constraints it may have just one value left
+        flags = [sw for sw in self.switches if sw.kind == 'bool' and sw.on.kind == 'local' and not sw.on.projs]
+        for _ in range(4):
+            changed = False
+            for sw in flags:
+                if sw.bb not in seen:
                     continue
-                seen.add(t)
-                dq.append(t)
+                l = sw.on.key
+                stores = self.const_stores(l)
+                alld = [d for d in self.defs.get(l, []) if d[1] == 'call' or not d[2]['lhs']['p']]
+                if not stores or len(stores) != len(alld):
+                    continue
+                vals = set(bool(v) for (bb, si, v) in stores if bb in seen)
+                if len(vals) == 1:
+                    ts = set(sw.targets(next(iter(vals))))
+                    new = allowed[sw.bb] & ts if sw.bb in allowed else ts
+                    if allowed.get(sw.bb) != new:
+                        allowed[sw.bb] = new
+                        changed = True
+            if not changed:
+                break
+            seen = run()
         return seen
 
     def backreach(self, targets, cut_edges=(), cut_blocks=()):
